@@ -596,6 +596,17 @@ def const(ctx: Any) -> List[Ob]:
     raise_ = [n for n in walk_local_ordered(rq.node) if isinstance(n, ast.If) and 'QM_QUESTION' in norm(n.test) and any(isinstance(b, ast.Assign) and norm(b.targets[0]) == roles['delay'] and norm(b.value) == '_DUPLICATE_QUESTION_INTERVAL' for b in n.body)]
     obs.append(ob(R, rq, raise_[0].test if raise_ else 'if this_question_type is QM_QUESTION and delay < ...', 'after a QM query the delay is raised to the duplicate-question interval', len(raise_) == 1))
     if raise_:
+        # ... as a table over (type of the round, delay in force): raised iff the round was QM and the delay is below the
+        # interval; afterwards the delay is at least the interval in every QM case and untouched in every QU case
+        QMs, QUs = fd.Evaluator(prog, rq.module, {}).ev(ast.Name(id='QM_QUESTION', ctx=ast.Load())), fd.Evaluator(prog, rq.module, {}).ev(ast.Name(id='QU_QUESTION', ctx=ast.Load()))
+        k_iv = prog.const('zeroconf.const', '_DUPLICATE_QUESTION_INTERVAL')
+        for qt_name, qt_v in (('QM', QMs), ('QU', QUs)):
+            for d0 in (200, k_iv - 1, k_iv, k_iv + 1, 5000):
+                ev_r = fd.Evaluator(prog, rq.module, {roles['qtype']: qt_v, roles['delay']: d0})
+                tv_r = ev_r.ev(raise_[0].test)
+                want_d = max(d0, k_iv) if qt_name == 'QM' else d0
+                got_d = None if tv_r is fd.UNKNOWN else (k_iv if tv_r else d0)
+                obs.append(ob(R, rq, f'{qt_name} round, delay in force {d0} ms', f'the delay afterwards is {want_d} ms', got_d == want_d, f'the test evaluates to {tv_r}: delay {got_d}'))
         compared = [norm(x.left) for x in ast.walk(raise_[0].test) if isinstance(x, ast.Compare) and any('QM_QUESTION' in norm(c_) for c_ in x.comparators)] + [norm(c_) for x in ast.walk(raise_[0].test) if isinstance(x, ast.Compare) and 'QM_QUESTION' in norm(x.left) for c_ in x.comparators]
         obs.append(ob(R, rq, raise_[0].test, 'the question type tested there is the one of the query just built in this round (not the caller\'s forced type, which is usually None)', compared == [roles['qtype']], f'tests `{compared}`; the type of this round is `{roles["qtype"]}`'))
     init_d = prog.func('zeroconf._services.info.ServiceInfo._get_initial_delay')
